@@ -19,6 +19,8 @@
               file exists;  files[<<d, c>>] = [st, tab] with
                 st = "complete": the file holds everything the cache wrote when it stored tab under c
                 st = "damaged" : the file exists but is cut short / empty / not parsable as a table
+                st = "foreign" : the file is complete, but what it holds was stored under ANOTHER
+                                 checksum than the one it is named by (tab = that content)
               (a missing file is simply not in the domain)
      o      : one table set-up of one connection
               [crc        announced by the device,
@@ -52,18 +54,21 @@ TableDiff(a, b) ==
 
 Intact(files, dirs, c)  == {d \in dirs : <<d, c>> \in DOMAIN files /\ files[<<d, c>>].st = "complete"}
 Damaged(files, dirs, c) == {d \in dirs : <<d, c>> \in DOMAIN files /\ files[<<d, c>>].st = "damaged"}
+Foreign(files, dirs, c) == {d \in dirs : <<d, c>> \in DOMAIN files /\ files[<<d, c>>].st = "foreign"}
 StoredUnder(files, dirs, c) == {files[<<d, c>>].tab : d \in Intact(files, dirs, c)}
 
 \* ---- clause 1: used only under the checksum it was stored under, identical to what was stored
 UsedClause(o, files) ==
     IF Intact(files, o.dirs, o.crc) = {}
-    THEN IF Damaged(files, o.dirs, o.crc) # {} THEN "DamagedFileUsed"
+    THEN IF Foreign(files, o.dirs, o.crc) # {} THEN "StoredUnderOtherChecksumUsed"
+         ELSE IF Damaged(files, o.dirs, o.crc) # {} THEN "DamagedFileUsed"
          ELSE "UsedWithoutStoredFile"          \* nothing is stored under the announced checksum
     ELSE IF \E t \in StoredUnder(files, o.dirs, o.crc) : TableDiff(o.got, t) = "" THEN "ok"
     ELSE "LoadedDiffers_" \o TableDiff(o.got, CHOOSE t \in StoredUnder(files, o.dirs, o.crc) : TRUE)
 
 \* ---- clause 2: missing / cut / unparsable => miss => download => right table, connection completes
-Covered(o, files) == Intact(files, o.dirs, o.crc) = {} \/ Damaged(files, o.dirs, o.crc) # {}
+Covered(o, files) == \/ Intact(files, o.dirs, o.crc) = {}
+                     \/ Damaged(files, o.dirs, o.crc) # {} \/ Foreign(files, o.dirs, o.crc) # {}
 
 MissClause(o, files) ==
     IF ~Covered(o, files) THEN "ok"            \* a miss beside an intact file: the property is silent
